@@ -151,6 +151,10 @@ func (meta *DefinitionMeta) UnmarshalYAML(value *yaml.Node) error {
 }
 
 func (rec *RecordDefinition) UnmarshalYAML(value *yaml.Node) error {
+	if value.Kind == yaml.SequenceNode {
+		return parseError(value, "a !record must be specified as a mapping with field `fields` and optionally `computedFields`")
+	}
+
 	parsedFields := false
 	for i := 0; i < len(value.Content); i += 2 {
 		k := value.Content[i]
@@ -451,6 +455,10 @@ func convertPattern(pat *parser.Pattern, node NodeMeta) Pattern {
 }
 
 func (protocol *ProtocolDefinition) UnmarshalYAML(value *yaml.Node) error {
+	if value.Kind == yaml.SequenceNode {
+		return parseError(value, "a !protocol must be specified as a mapping with field `sequence`")
+	}
+
 	parsedSequence := false
 	for i := 0; i < len(value.Content); i += 2 {
 		k := value.Content[i]
@@ -819,6 +827,10 @@ func UnmarshalTypeCases(value *yaml.Node) (TypeCases, error) {
 }
 
 func UnmarshalGenericNode(value *yaml.Node) (Type, error) {
+	if value.Kind == yaml.SequenceNode {
+		return nil, parseError(value, "a !generic type must be specified as a mapping with fields `name` and `args`")
+	}
+
 	simpleType := &SimpleType{NodeMeta: createNodeMeta(value)}
 
 	for i := 0; i < len(value.Content); i += 2 {
@@ -890,6 +902,10 @@ func (dimension *ArrayDimension) UnmarshalYAML(value *yaml.Node) error {
 }
 
 func (enum *EnumDefinition) UnmarshalYAML(value *yaml.Node) error {
+	if value.Kind == yaml.SequenceNode {
+		return parseError(value, "an enum or flags definition must be specified as a mapping with field `values` and optionally `base`")
+	}
+
 	for i := 0; i < len(value.Content); i += 2 {
 		k := value.Content[i]
 		v := value.Content[i+1]
